@@ -44,6 +44,15 @@ impl Tier {
             Tier::Thorough => thorough,
         }
     }
+    /// Number of generated cases: the quick figure (the size the floors were measured at) times
+    /// VERIF_QUICK_SCALE (default 8: a quick check may use about half a minute of the 16 cores), never more
+    /// than the thorough figure.
+    pub fn pickn(&self, quick: u64, thorough: u64) -> u64 {
+        match self {
+            Tier::Quick => (quick * crate::util::env_u64("VERIF_QUICK_SCALE", 8).max(1)).min(thorough),
+            Tier::Thorough => thorough,
+        }
+    }
 }
 
 /// Static description of a property check.
